@@ -418,6 +418,26 @@ func doBuiltBoxes(seed uint64) {
 			boxCheck(mp4.CreatePrftBox(ver, 24, 1, mp4.NTP64(1<<40), v), fmt.Sprintf("CreatePrftBox(version %d, mediatime %d)", ver, v))
 		}
 	}
+	// senc boxes built sample by sample, sub-sample patterns on some samples only (what EncryptFragment does when
+	// the protect function returns no pattern for a sample), with and without per-sample IVs
+	for m := 0; m < 16; m++ {
+		for _, ivLen := range []int{0, 8, 16} {
+			sb := mp4.CreateSencBox()
+			how := fmt.Sprintf("CreateSencBox; AddSample x 4, IV length %d, sub-samples on samples", ivLen)
+			for i := 0; i < 4; i++ {
+				var ss mp4.SencSample
+				if ivLen > 0 {
+					ss.IV = r.Bytes(ivLen, nil)
+				}
+				if m&(1<<uint(i)) != 0 {
+					ss.SubSamples = []mp4.SubSamplePattern{{BytesOfClearData: uint16(10 + i), BytesOfProtectedData: uint32(100 + i)}}
+					how += fmt.Sprintf(" %d", i)
+				}
+				_ = sb.AddSample(ss)
+			}
+			boxCheck(sb, how)
+		}
+	}
 	boxCheck(mp4.CreateMfhd(7), "CreateMfhd(7)")
 	boxCheck(mp4.CreateTrex(2), "CreateTrex(2)")
 	boxCheck(mp4.CreateMvhd(), "CreateMvhd()")
